@@ -21,7 +21,7 @@ func init() {
 			"in-process through obichunk.IUniqueSequence (inproc; the on-disk path runs in a helper process because its failures are process-fatal) and through the obiuniq command on FASTA files (e2e); demerge: obiuniq -m k | obidemerge -d k | obiuniq -m k on files or through standard input, with the expansion made by obidemerge checked value by value; " +
 			"chunks: the first step alone (ISequenceChunk / ISequenceChunkOnDisk must partition the input: every record once, unchanged, equal sequences in one chunk), and the chunk files as they are when obiformats.WriterDispatcher returns (half of the cases with the event hook switched on, which adds work at the existing suspension point writer.arrival). " +
 			"Each execution is compared with the reference dereplication as a map key -> (count, merged maps). evaluations = executions of IUniqueSequence / of a command compared with the oracle; " +
-			"Added later: weighted merge descriptors (-m key:wgt), numeric values beyond int64 and identifiers differing in their last digit only (100000001..3), temporary directories whose name has glob characters. " +
+			"Added later: weighted merge descriptors (-m key:wgt), numeric values beyond int64 and identifiers differing in their last digit only (100000001..3), temporary directories whose name has glob characters. The empty string as NA value. " +
 			"distinct_nontrivial = distinct (mode, chunk count, workers, permuted, batch sizes, #categories, #merge keys, no-singleton, premerged / missing / explicit-NA / integer values present, size class) classes of executions whose expected result has >= 2 classes and at least one class merging >= 2 records " +
 			"(demerge: at least one class whose merged map has >= 2 values; chunks: more distinct sequences than chunks)",
 		Assume: []string{
